@@ -20,7 +20,7 @@ RULE = ("conc: HandleEvent called by concurrent handlers stopped by a gate insid
         "hist: a registry with 2-3 IPv4, 2 IANA and 2 PD pools; 12-45 operations over 7 sessions (IPoE/PPPoE/L2GW, optional "
         "v4/IANA/PD/pool names/VRF/relay info/user, unknown and empty SRG, unparseable prefix, out-of-pool address) with "
         "in-order deliveries lagging behind the events, deliveries whose store write fails followed by their retransmission, duplicates and range replays ending at the newest delivered message "
-        "(mode clean; mode fresh: SRG 2 is delivered nothing until a bulk sync at the end that runs on a full ring while the active node handles 1-3 more events after every page), plus one input class per case (each was the trigger of a finding; all but 'stale' are fixed in /repo and must now match the repaired model): stale redelivery (mode stale), redelivery of a message that is still the newest delivered one of its session with address changes (mode latest: store and pools must converge on HEAD, only lastSeq may differ), address change/drop by an update (mode "
+        "(mode clean; mode fresh: SRG 2 is delivered nothing until a bulk sync at the end that runs on a full ring while the active node handles 1-3 more events after every page), plus one input class per case (each was the trigger of a finding; all but 'stale' are fixed in /repo and must now match the repaired model): stale redelivery (mode stale), redelivery of a message that is still the newest delivered one of its session with address changes (mode latest: store and pools must converge on HEAD, only lastSeq may differ), frequent range replays reaching the newest delivered message while addresses change hands (mode replay), address change/drop by an update (mode "
         "drop), bulk replay with deletes in the window (mode bulk), same address in two named pools (mode relall).  Every "
         "history ends with all messages delivered.  Non-trivial: rng case with at least one non-empty answer and one empty; "
         "hist case whose final store is non-empty and at least one session was released.  Distinct: by case text.")
@@ -91,7 +91,7 @@ def gen_rng(rng, tier, out):
 V4 = {1: (0x0A000001, 0x0A00000C, 0x0A000001), 2: (0x0A000101, 0x0A000108, 0), 3: (0x0A000001, 0x0A00000C, 0x0A000001)}
 NA_BASE = {1: 0x20010DB8 << 96, 2: (0x20010DB8 << 96) | (1 << 80)}
 NA = {1: (NA_BASE[1] + 1, NA_BASE[1] + 10, 0), 2: (NA_BASE[2] + 1, NA_BASE[2] + 8, NA_BASE[2] + 1)}
-PD = {1: ((0x20010DB8 << 96) | (0x100 << 80), 48, 56), 2: ((0x20010DB8 << 96) | (0x200 << 80), 60, 64)}
+PD = {1: ((0x20010DB8 << 96) | (0x100 << 80), 52, 56), 2: ((0x20010DB8 << 96) | (0x200 << 80), 60, 64)}
 KIND = {1: "I", 2: "I", 3: "I", 4: "P", 5: "P", 6: "L", 7: "I", 8: "P", 10: "I", 12: "L"}
 
 
@@ -231,6 +231,10 @@ def gen_hist(rng, mode, nops):
     latest = mode == "latest"     # duplicates of the newest delivered message OF A SESSION (hypothesis of C11_*_head)
     if latest:
         mode = "drop"             # addresses may change or be dropped by updates
+    replay = mode == "replay"     # frequent replays of backlog ranges that reach the newest delivered message
+    if replay:                    # (delivery_runs), while addresses change hands: no pool theorem for HEAD — generated
+        mode = "drop"
+        cap = rng.choice([8, 64])
     wrapped = mode == "freshwrap" # which runs while the active node keeps renewing a session (ring exactly full);
     if fresh:                     # freshwrap: the same with a backlog that has wrapped before the bulk sync
         mode = "clean"
@@ -289,7 +293,16 @@ def gen_hist(rng, mode, nops):
                         elif mode == "drop" and rng.random() < 0.45:
                             act.drop(s, fam)
                             act.give(s, fam, 0.5)              # change or drop
-            if not rel and rng.random() < 0.15:
+            if rel and rng.random() < 0.35:
+                # release events of the access components are sparse (DHCPv4 RELEASE: IPv4 only, no pool names; expiry:
+                # no prefix): the DELETE carries less addressing than the session's last UPDATE
+                sp = dict(s)
+                for fld, val in rng.choice([(("v6", None), ("napool", 0), ("pd", None), ("pdlen", 0), ("pdpool", 0), ("v4pool", 0)),
+                                            (("pd", None), ("pdlen", 0), ("pdpool", 0), ("v4pool", 0), ("napool", 0)),
+                                            (("v4", None), ("v4pool", 0))]):
+                    sp[fld] = val
+                ops.append(ev_token(sp, True))
+            elif not rel and rng.random() < 0.15:
                 # the same update arrives as the result of a subscriber mutation (HandleMutationResult); a failed
                 # mutation (ok=0) of an already live session is not replicated and changes nothing
                 ops.append("M:1:" + ev_token(s, False)[2:])
@@ -318,7 +331,9 @@ def gen_hist(rng, mode, nops):
             g = 1 if fresh or hold2 else rng.choice([1, 2])
             m = nxt[g]
             y = rng.random()
-            if latest and m >= 1:
+            if replay and m >= 1:
+                ops.append("P:%d:%d:%d" % (g, rng.randint(1, m) if rng.random() < 0.5 else rng.randint(max(1, m - 6), m), m))
+            elif latest and m >= 1:
                 cand = [k for k in range(1, m + 1) if not any(key == sent[g][k - 1][1] for _, key in sent[g][k:m])]
                 ops.append("R:%d:%d" % (g, rng.choice(cand)))
             elif mode == "stale" and m >= 2 and y < 0.6:
@@ -399,7 +414,7 @@ def gen_hist(rng, mode, nops):
                 ops.append("R:%d:%d" % (g, k))
     if mode == "clean" and rng.random() < 0.2:
         ops.append("D:1")                      # nothing left: no-op
-    return "hist %s %d %d %s %s" % ("lagbulk" if lag else "latest" if latest else "freshwrap" if wrapped else "fresh" if fresh else mode, cap, page, " ".join(pool_tokens(mode)), " ".join(ops))
+    return "hist %s %d %d %s %s" % ("replay" if replay else "lagbulk" if lag else "latest" if latest else "freshwrap" if wrapped else "fresh" if fresh else mode, cap, page, " ".join(pool_tokens(mode)), " ".join(ops))
 
 
 def gen_conc(rng, tier, out):
@@ -456,7 +471,7 @@ def gen_cases(rng, tier, budget):
     gen_rng(rng, tier, out)
     gen_conc(rng, tier, out)
     n = (budget or 900) if tier == "quick" else (budget or 12000)
-    modes = ["clean"] * 2 + ["fresh", "freshwrap", "lagbulk", "stale", "latest", "drop", "bulk", "relall"]
+    modes = ["clean"] * 2 + ["fresh", "freshwrap", "lagbulk", "stale", "latest", "replay", "drop", "bulk", "relall"]
     for i in range(n):
         mode = modes[i % len(modes)]
         out.append(gen_hist(rng, mode, rng.randint(12, 45)))
